@@ -425,31 +425,36 @@ def isPanicAt {α} (site : String) : Except Fault α → Bool
   | .error (.panic s) => s == site
   | _ => false
 
+def isOrdinaryErr {α} : Except Fault α → Bool
+  | .error .err => true
+  | _ => false
+
 /-- any volume -/
 def anyFv : Pred := { fv := fun _ => true }
 
 open Fiano.Uefi.Total.Samples in
-/-- `OpOk` is needed: a 24-byte blob whose size field is 0 parses (`NewFile`) to a file with an **empty buffer**;
-    inserted in front of `vol128`'s file, the next `Assemble` ends in `log.Fatalf` (reproduced on the real code:
-    `utk vol insert_front <sel> blob save` exits) -/
+/-- what `OpOk` excludes: a 24-byte blob whose size field is 0 parses (`NewFile`) to a file with an **empty buffer**;
+    inserted in front of `vol128`'s file, the next `Assemble` used to end in `log.Fatalf` on the real code
+    (`utk vol insert_front <sel> blob save` exited); since fixes/C05-assemble-empty-file it is an ordinary error -/
 example : (match parseWithG (hooksOf storedDecoders false) 1 vol128 {} {},
                  newFileG (hooksOf storedDecoders false) 1 (fileA.take 20 ++ [0, 0, 0, 0xF8]) {} {} with
     | .ok ((t, st), _), .ok ((some nf, _), _) =>
       (match insertOp anyFv .front nf t with
-       | .ok t' => nf.buf.length == 0 && isFatal (assembleG (AsmHooksG.ofPure (fun _ => none) 0xFF) t' st {})
+       | .ok t' => nf.buf.length == 0 && isOrdinaryErr (assembleG (AsmHooksG.ofPure (fun _ => none) 0xFF) t' st {})
        | .error _ => false)
     | _, _ => false) = true := by decide +kernel
 
 open Fiano.Uefi.Total.Samples in
-/-- `EmptyVolsOk` is needed: `vol128NoFiles` parses (no file, `HeaderLen = 0xFFF8`, so `DataOffset` is beyond
-    the 128-byte buffer) and assembles; after `fileA` is inserted into it, `Assemble` slices
-    `fBuf[:f.DataOffset]` (reproduced on the real code: `slice bounds out of range [:65528] with capacity 4096`) -/
+/-- what `EmptyVolsOk` excludes: `vol128NoFiles` parses (no file, `HeaderLen = 0xFFF8`, so `DataOffset` is beyond
+    the 128-byte buffer) and assembles; after `fileA` is inserted into it, `Assemble` used to slice
+    `fBuf[:f.DataOffset]` (real code: `slice bounds out of range [:65528] with capacity 4096`); since
+    fixes/C05-assemble-dataoffset it is an ordinary error -/
 example : (match parseWithG (hooksOf storedDecoders false) 1 vol128NoFiles {} {},
                  newFileG (hooksOf storedDecoders false) 1 fileA {} {} with
     | .ok ((t, st), _), .ok ((some nf, _), _) =>
       (match assembleG (AsmHooksG.ofPure (fun _ => none) 0xFF) t st {}, insertOp anyFv .front nf t with
        | .ok _, .ok t' =>
-         isPanicAt "Assemble.Visit: fBuf[:f.DataOffset]" (assembleG (AsmHooksG.ofPure (fun _ => none) 0xFF) t' st {})
+         isOrdinaryErr (assembleG (AsmHooksG.ofPure (fun _ => none) 0xFF) t' st {})
        | _, _ => false)
     | _, _ => false) = true := by decide +kernel
 
@@ -474,10 +479,6 @@ example : (match parseWithG (hooksOf storedDecoders false) 1 vol128 {} {},
 def allocOf {α} : Except Fault (α × Meter) → Nat
   | .ok (_, m) => m.alloc
   | .error _ => 0
-
-def isOrdinaryErr {α} : Except Fault α → Bool
-  | .error .err => true
-  | _ => false
 
 open Fiano.Uefi.Total.Samples in
 /-- **witness for C05-alignment-pad**: placing the 32-byte `fileA` behind the 72-byte header of `vol128` costs 32
